@@ -159,9 +159,8 @@ class C11(Prop):
       'modelled, not verified: validate / use_spec / space_size / first_dna / next_dna / random_dna / __cmp__ '
       '(hand-written Lean mirror tied by correspondence); custom decision points\' user callbacks and hints '
       'are outside the model; next_dna on non-members is not compared',
-      'the four space_size recurrences for multi-choices (k>1) are carried by exhaustive small-scope '
-      'correspondence (family above; driver-internal check size == |allValid| on every enumerated spec) '
-      'rather than by a Lean theorem (C11_size_Full staged; C11_size_partial proved for specs without k>1)',
+      'every clause of the property is a Lean theorem about the model (PgProps/C11.lean); the driver-internal '
+      'checks iter == allValid and size == |allValid| on every enumerated spec are now redundant sanity checks',
   ]
   assumptions = ['DNA objects are only built through the DNA constructor (hereditarily normalised trees)',
                  'random.Random.sample returns k distinct members of the population, randint a value in range, '
